@@ -125,7 +125,11 @@ func TestRacePass(t *testing.T) {
 	if iters == 0 {
 		iters = 100
 	}
-	for _, s := range scenarios {
+	from, _ := strconv.Atoi(os.Getenv("VERIF_RACE_FROM"))
+	for si, s := range scenarios {
+		if si < from {
+			continue
+		}
 		for i := 0; i < iters; i++ {
 			ex := s.sc(t)
 			var wg sync.WaitGroup
@@ -179,10 +183,37 @@ func TestRaceDriver(t *testing.T) {
 	}
 	ctx, cancel := context.WithTimeout(context.Background(), deadline)
 	defer cancel()
-	cmd := exec.CommandContext(ctx, bin, "-test.run", "TestRacePass", "-test.timeout=0")
-	cmd.WaitDelay = 5 * time.Second
-	cmd.Env = append(os.Environ(), "VERIF_MODE=race", "VERIF_RACE_ITERS="+iters, "GORACE=halt_on_error=0 history_size=3")
-	out, err := cmd.CombinedOutput()
+	// A panic outside the scenario threads (a component's own goroutine) or a
+	// runtime "fatal error" (concurrent map access) kills the free-running
+	// process: when the crash site is in the repository that is a C18
+	// violation, and the pass carries on with the scenario after the one that
+	// crashed.
+	var out []byte
+	var err error
+	from := 0
+	for {
+		cmd := exec.CommandContext(ctx, bin, "-test.run", "TestRacePass", "-test.timeout=0")
+		cmd.WaitDelay = 5 * time.Second
+		cmd.Env = append(os.Environ(), "VERIF_MODE=race", "VERIF_RACE_ITERS="+iters, "VERIF_RACE_FROM="+strconv.Itoa(from), "GORACE=halt_on_error=0 history_size=3")
+		var o []byte
+		o, err = cmd.CombinedOutput()
+		out = append(out, o...)
+		done := from + strings.Count(string(o), "RACEPASS ")
+		if ctx.Err() != nil || err == nil || done >= len(scenarios) {
+			break
+		}
+		cls, trace := ev.CrashSite(string(o))
+		if cls == "" || !strings.Contains(strings.Join(trace, "\n"), "github.com/ipfs/ipfs-cluster") {
+			break
+		}
+		R.Violation("C18|race-pass|"+scenarios[done].name+"|crash:"+cls, map[string]interface{}{"scenario": scenarios[done].name, "mode": "free-running -race pass", "trace": trace})
+		out = append(out, []byte("\nRACEPASS-CRASHED "+scenarios[done].name+"\n")...)
+		from = done + 1
+		if from >= len(scenarios) {
+			err = nil
+			break
+		}
+	}
 	hung := ctx.Err() != nil
 	sec := R.Sec("race-pass")
 	sec.Exhaustive = false
@@ -219,7 +250,7 @@ func TestRaceDriver(t *testing.T) {
 		}
 		R.Violation(key, map[string]interface{}{"report": lines})
 	}
-	ran := strings.Count(string(out), "RACEPASS ")
+	ran := strings.Count(string(out), "RACEPASS ") + strings.Count(string(out), "RACEPASS-CRASHED ")
 	sec.Bounds["scenarios_run"] = ran
 	sec.Bounds["race_reports"] = nrep
 	R.Eval(sec, "race-pass|reports="+strconv.Itoa(nrep), true)
